@@ -171,6 +171,16 @@ func (p *Program) Run(entry string, opt Options) *Result {
 				}
 				mu.Unlock()
 
+				if os.Getenv("GOSYM_FRESH_SOLVER") != "" && solver.Queries > 0 {
+					// fresh solver process per path: cvc5's incremental string solving degrades
+					// over thousands of push/pop rounds
+					ns, err := NewSolver("cvc5", opt.TlimitMs, opt.KeepLog)
+					if err == nil {
+						ns.Queries, ns.NSat, ns.NUnsat, ns.NUnknown, ns.Seconds, ns.Errors = solver.Queries, solver.NSat, solver.NUnsat, solver.NUnknown, solver.Seconds, solver.Errors
+						solver.Close()
+						solver = ns
+					}
+				}
 				ex := NewExec(p, solver, prefix)
 				if opt.Unwind > 0 {
 					ex.Unwind = opt.Unwind
